@@ -81,6 +81,27 @@ class Problem:
         else:
             Lam[:, 0] = pr["sigma_K"] ** 2
             mu[:, 0] = pr["mu_K"]
+            if "K4" in twins and self.n_offsets >= 1:
+                # finding K4: the kernel writes the custom K prior into slot n_offsets (an offset's / v0's slot) and
+                # leaves K's own variance at 0; replay its assignment order exactly
+                L = self.L
+                no, pt = self.n_offsets, self.poly_trend
+                m0 = np.zeros(L)
+                l0 = np.zeros(L)
+                decl_mu = np.asarray(pr["mu"], dtype=float)
+                decl_var = np.asarray(pr["sig"], dtype=float) ** 2
+                for i in range(no):
+                    m0[2 + i], l0[2 + i] = decl_mu[2 + i], decl_var[2 + i]
+                for i, nm in enumerate(["K"] + [f"v{k}" for k in range(pt)]):
+                    if nm == "K":
+                        m0[i + no], l0[i + no] = pr["mu_K"], pr["sigma_K"] ** 2
+                    elif nm == "v0":
+                        m0[i], l0[i] = decl_mu[1], decl_var[1]
+                    else:
+                        m0[i + no], l0[i + no] = decl_mu[1 + no + (i - 1)], decl_var[1 + no + (i - 1)]
+                l0 = np.where(l0 == 0, 1e-300, l0)
+                mu = np.tile(m0[None, :], (T, 1))
+                Lam = np.tile(l0[None, :], (T, 1))
         return mu, Lam
 
     def var(self, theta, twins=frozenset()):
